@@ -44,9 +44,10 @@ func H_C14_orderLaws(la int, lb int) {
 	vReach("greater", cxy == 1)
 }
 
-//verif:harness C14 quick which=0..2
-func H_C14_next(which int) {
-	v := Ver{Major: vU64("maj"), Minor: vU64("min"), Patch: vU64("pat"), PreRelease: vStr("pre", 2), Build: vStr("build", 1)}
+//verif:harness C14 quick which=0..2 lp=0..1 lb=0..1
+func H_C14_next(which int, lp int, lb int) {
+	// pre-release and build each absent or present, in every combination
+	v := Ver{Major: vU64("maj"), Minor: vU64("min"), Patch: vU64("pat"), PreRelease: vStr("pre", 2*lp), Build: vStr("build", lb)}
 	var n Ver
 	var p bool
 	var comp uint64
@@ -75,6 +76,30 @@ func H_C14_next(which int) {
 			vAssert("components", n.Major == v.Major && n.Minor == v.Minor && n.Patch == v.Patch+1)
 		}
 	}
+}
+
+// Latest on two versions that compare equal (same core, pre-releases equal or equal up to leading zeros of a
+// trailing number) whose build metadata is absent or present on either side: the result is one of the arguments,
+// with that argument's own build
+//
+//verif:harness C14 quick ba=0..1 bb=0..1 spell=0..1
+func H_C14_latestOfEquals(ba int, bb int, spell int) {
+	pa := vStr("pre", 2)
+	for i := 0; i < 2; i++ {
+		vAssume(pa[i] < 0x80)
+	}
+	vAssume(refSplitPre(pa).valid)
+	pb := pa
+	if spell == 1 {
+		pa, pb = "rc01", "rc1" // spelled differently, compare equal (the pinned trailing-number rule)
+	}
+	maj, min, pat := vU64("maj"), vU64("min"), vU64("pat")
+	x := Ver{Major: maj, Minor: min, Patch: pat, PreRelease: pa, Build: vStr("a.build", ba)}
+	y := Ver{Major: maj, Minor: min, Patch: pat, PreRelease: pb, Build: vStr("b.build", 2*bb)}
+	vAssume(x.Compare(y) == 0)
+	l, m := x.Latest(y), y.Latest(x)
+	vAssert("latest-of-equals-is-an-argument", (l == x || l == y) && (m == x || m == y))
+	vReach("reached", true)
 }
 
 // string helpers: result of comparing the parsed values, error exactly when either text is invalid for the helper
